@@ -270,6 +270,11 @@ def run(repo: Repo, rep: Report, tier: str) -> None:
              "each operand's wire selection to that operand's slot (the loop wire is red, an input on the cell's signal green: crossed selections add the cell to itself)",
              select=lambda o: "_configure_arithmetic" in o.construct, floor=2)
 
+    # ---------------- R13 --------------------------------------------------------------
+    _borrow4(repo, rep, "C10", "C10-R3", "C04-R13", "the folded loop keeps reading the cell's signal with optimisation on: CSE merges the written expression with an earlier copy of it "
+             "only if the two agree in everything the key holds, the output signal included (a copy projected onto another signal would take the loop's place)",
+             select=lambda o: "output_type" in o.construct or "IRArith" in o.construct, floor=3)
+
 
 def _anc10(root: ast.AST, node: ast.AST) -> list[ast.AST]:
     from ..core import parents_map
